@@ -17,7 +17,7 @@ from __future__ import annotations
 
 import ast
 
-from ..match import arg, calls, expected_term, mutations_of, package_mutations, returns, term_of
+from ..match import arg, calls, expected_term, mutations_of, package_mutations, returns, term_of, within_vocabulary
 from ..model import own_nodes, parents
 from ..terms import show, walk_term
 from .common import CR, enumeration
@@ -101,7 +101,7 @@ def sampler_selection(repo, chk, prefix):
             chk.unsure(f'{prefix}.2', 'R15', fn.site(res.unknown) if res.unknown is not None else fn.site(), desc, 'a statement outside the path vocabulary decides what the sampler returns')
             continue
         # which counter does this path work on?
-        objs = {_counter_of(fn, u['target']) for u in res.updates}
+        objs = {_counter_of(fn, u['target']) for u in res.updates} - {None}      # updates of other (local) containers are not the counter's
         none_assumed = [v for t, v in res.assumed if cparam and term_of(fn, t, inline=False) in (expected_term(m, f'{cparam} is None'), expected_term(m, f'{cparam} == None'))]
         not_none_assumed = [v for t, v in res.assumed if cparam and term_of(fn, t, inline=False) in (expected_term(m, f'{cparam} is not None'), expected_term(m, f'{cparam} != None'))]
         truthy_assumed = [v for t, v in res.assumed if cparam and term_of(fn, t, inline=False) == ('name', cparam)] + [not v for t, v in res.assumed if cparam and term_of(fn, t, inline=False) == ('not', ('name', cparam))]
@@ -147,9 +147,14 @@ def sampler_selection(repo, chk, prefix):
             known_shape = any(isinstance(x, tuple) and x[:2] in (('call', ('name', 'sorted')), ('call', ('lib', 'heapq.nsmallest')), ('call', ('lib', 'heapq.nlargest')), ('call', ('lib', 'numpy.argsort')), ('call', ('lib', 'random.sample'))) for x in walk_term(rt)) \
                 or rt == ('role', 'cands') or (rt[0] == 'sub' and rt[1] == ('role', 'cands'))
             filtered = any(isinstance(x, tuple) and x and x[0] in ('listcomp', 'genexp', 'setcomp') and any(g[1] and any(y == ('role', 'cands') for y in walk_term(g[0])) for g in x[2]) for x in walk_term(rt))
-            if filtered:
+            # the order among equally evaluated candidates is the order of what is sorted: a set of the candidates has no list order
+            over_set = any(isinstance(x, tuple) and x[:2] in (('call', ('name', 'sorted')), ('call', ('lib', 'heapq.nsmallest'))) and any(isinstance(a, tuple) and (a[:2] in (('call', ('name', 'set')), ('call', ('name', 'frozenset'))) or a[0] == 'setcomp') for a in x[2])
+                           for x in walk_term(rt))
+            if over_set:
+                chk.bad(f'{prefix}.2', 'R15', site, f'{desc}: {ast.unparse(res.returned)[:160]}', 'the selection sorts a *set* of the candidates: candidates with equal counts come out in set-iteration order (hash dependent), not in candidate-list order; ' + why)
+            elif filtered:
                 chk.bad(f'{prefix}.2', 'R15', site, f'{desc}: {ast.unparse(res.returned)[:160]}', 'the candidates are filtered by a predicate instead of being sorted by count and cut at the cap: a filter returns fewer than min(cap, #candidates) candidates or does not keep ties in list order; ' + why)
-            elif known_shape:
+            elif known_shape and within_vocabulary(rt, forms):
                 chk.bad(f'{prefix}.2', 'R15', site, f'{desc}: {ast.unparse(res.returned)[:160]}', f'{why}; found {show(rt)[:220]}')
             else:
                 chk.unsure(f'{prefix}.2', 'R15', site, f'{desc}: {ast.unparse(res.returned)[:160]}', f'the returned selection is not in the vocabulary of recognised selections: {show(rt)[:200]}')
@@ -183,7 +188,7 @@ def sampler_selection(repo, chk, prefix):
             elif u['kind'] == 'incall' and u.get('op') == 'Add':
                 ok_over = over == rt
                 ok_val = val == ('num', 1)
-                after = sel_seq is None or u['seq'] > sel_seq
+                after = sel_seq is None or u['seq'] >= sel_seq      # equal: one loop over the already ranked list builds the selection and counts it (split by the path evaluation)
                 chk.expect(ok_over and ok_val and after, 'C07.3', 'R13', fn.site(u['node']), ast.unparse(u['node']).replace('\n', ' ')[:120], '+1 for every element of the returned list, unconditionally',
                            'the count must be raised by exactly 1 for exactly the returned candidates (after they were selected): ' + ('the loop ranges over something else than the returned list' if not ok_over else ('the increment is not 1' if not ok_val else 'the increment precedes the selection')))
                 inc_seen = True
